@@ -24,7 +24,7 @@ type c28rCase struct {
 	Burst int        `json:"burst"` // queries per goroutine per block (lower bound; they run free)
 }
 
-const c28rRule = "history = realm-deployment block + 15-40 generated blocks (1-3 txs, at least one Tick) on the real gno.land app over memdb or pebbledb; 2-4 free-running query goroutines cycle through a drawn plan (vm/qeval, vm/qrender, vm/qfile, auth/accounts and .store with/without height, .app/simulate) while the consensus goroutine executes the blocks; binary built with -race. Non-trivial: at least 20 successful answers of which at least one belongs to a height below the commit under way when it returned. Distinct = distinct (history, plan)."
+const c28rRule = "history = realm-deployment block + 15-40 generated blocks (1-3 txs, at least one Tick) on the real gno.land app over memdb or pebbledb; 2-4 free-running query goroutines cycle through a drawn plan (vm/qeval, vm/qrender, vm/qfile, qeval of deployed packages, auth/accounts and .store with/without height, .app/simulate of a Tick and of txs drawn from the block grammar incl. colliding deployments) while the consensus goroutine executes the blocks; binary built with -race. Non-trivial: at least 20 successful answers of which at least one belongs to a height below the commit under way when it returned. Distinct = distinct (history, plan)."
 
 func c28rDraw(rt *rapid.T) c28rCase {
 	c := cq.C28Case{NAcc: rapid.IntRange(2, 4).Draw(rt, "nacc")}
@@ -38,7 +38,7 @@ func c28rDraw(rt *rapid.T) c28rCase {
 		nt := rapid.IntRange(0, 2).Draw(rt, "ntx")
 		for i := 0; i < nt; i++ {
 			tx := cq.C28Tx{Signer: rapid.IntRange(0, c.NAcc-1).Draw(rt, "s")}
-			switch rapid.IntRange(0, 6).Draw(rt, "kind") {
+			switch rapid.IntRange(0, 8).Draw(rt, "kind") {
 			case 0, 1:
 				tx.Kind = "tick"
 			case 2, 3:
@@ -49,11 +49,12 @@ func c28rDraw(rt *rapid.T) c28rCase {
 				tx.Kind = "kvset"
 				tx.Key = rapid.SampledFrom([]string{"a", "b"}).Draw(rt, "key")
 			default:
-				if npkg < 4 {
+				if npkg < 4 && (npkg == 0 || rapid.Bool().Draw(rt, "deploy")) {
 					tx.Kind = "addpkg"
 					npkg++
 				} else {
-					tx.Kind = "tick"
+					tx.Kind = "pkgcall"
+					tx.Pkg = rapid.IntRange(0, npkg-1).Draw(rt, "pkg")
 				}
 			}
 			blk.Txs = append(blk.Txs, tx)
@@ -63,7 +64,17 @@ func c28rDraw(rt *rapid.T) c28rCase {
 	nq := rapid.IntRange(4, 10).Draw(rt, "plan")
 	for i := 0; i < nq; i++ {
 		q := cq.C28Query{}
-		switch rapid.IntRange(0, 9).Draw(rt, "qk") {
+		switch qk := rapid.IntRange(0, 14).Draw(rt, "qk"); qk {
+		case 10, 11, 12, 13:
+			// a simulation drawn from the block grammar (own tx / other sender,
+			// colliding deployment / MsgRun), tied to a tx of the history
+			q.Kind = "simtx"
+			q.B = rapid.IntRange(0, len(c.Blocks)-1).Draw(rt, "b")
+			q.I = rapid.IntRange(0, len(c.Blocks[q.B].Txs)-1).Draw(rt, "i")
+			q.Var = rapid.IntRange(0, 2).Draw(rt, "var")
+		case 14:
+			q.Kind = "pkgeval"
+			q.Pkg = rapid.IntRange(0, 3).Draw(rt, "pkg")
 		case 0, 1, 2:
 			q.Kind = "snap"
 		case 3:
@@ -138,7 +149,7 @@ func c28rExec(t *testing.T) func(ctx *vk.Ctx, rc c28rCase) error {
 					for i := g; !stop.Load() && len(mine) < 4000; i++ {
 						q := c.Queries[i%len(c.Queries)]
 						lo := int(done.Load())
-						a := cq.C28Ask(app, q, c, ref.SimTx)
+						a := cq.C28Ask(app, q, c, ref)
 						hi := int(entered.Load())
 						mine = append(mine, c28rObs{q, a, lo, hi})
 						perBlock.Add(1)
@@ -176,6 +187,10 @@ func c28rExec(t *testing.T) func(ctx *vk.Ctx, rc c28rCase) error {
 			h, err := cq.C28Check(ref, c, o.q, o.a, o.lo, o.hi)
 			if _, isMix := err.(*cq.C28Mix); isMix && ctx.Known(cq.C28KeyStaleHeight) {
 				ctx.Class("known:" + cq.C28KeyStaleHeight)
+				continue
+			}
+			if _, isLive := err.(*cq.C28LiveRace); isLive && ctx.Known(cq.C28KeyLiveFallback) {
+				ctx.Class("known:" + cq.C28KeyLiveFallback)
 				continue
 			}
 			if err != nil {
